@@ -45,12 +45,13 @@ def base_axes(spec):
 def make_grid(spec):
     dims = tuple(spec["dims"])
     dim = len(dims)
+    crs = dict(crs=spec["crs"]) if spec.get("crs") else {}
     if spec["cls"] == "esri":
         return fm.EsriGrid(
             ncols=dims[0] - 1, nrows=dims[1] - 1, cellsize=spec.get("cellsize", 1.5),
-            xllcorner=spec.get("xll", 3.0), yllcorner=spec.get("yll", -2.0), order=spec["order"],
+            xllcorner=spec.get("xll", 3.0), yllcorner=spec.get("yll", -2.0), order=spec["order"], **crs,
         )
-    kw = dict(order=spec["order"], axes_reversed=spec["reversed"], data_location=spec["location"])
+    kw = dict(order=spec["order"], axes_reversed=spec["reversed"], data_location=spec["location"], **crs)
     if spec["cls"] == "uniform":
         return fm.UniformGrid(
             dims, spacing=spec.get("spacing", SPACING)[:dim], origin=spec.get("origin", ORIGIN)[:dim],
